@@ -192,6 +192,7 @@ def structural_handlers(repo: Repo, rep, P: str, secs):
 STRUCTURAL_GUARDS = [
     ("in_project", "context switch: position/layer/visualization are not part of a stand-alone synth"),
     ("module is not None", "empty slot"), ("pattern is not None", "empty slot"),
+    ("module is None", "empty slot: terminator only"), ("pattern is None", "empty slot: terminator only"),
     ("len(module.in_links) > 0", "an empty SLNK is written in the else branch"),
     ("not (len(module.in_links) > 0)", "else branch of the SLNK emission"),
     ("module.in_links", "an empty SLNK is written in the else branch"), ("not module.in_links", "else branch of the SLNK emission"),
